@@ -1,28 +1,10 @@
-(** C29 property theorems (part 2 of 3; the three files are compiled in parallel): statements only, each closed by [exact]; proofs are in C29/C29_Proofs.v.
+(** C29 property theorems (part 2 of 5; the files are compiled in parallel): statements only, each closed by [exact]; proofs are in C29/C29_Proofs.v.
     in_pointMassAt, in_isValid, in_shiftToMassCenter, in_shiftFromMassCenter, si_mulSV, si_calcMassMoment, sa_shift*
     are regenerated from MassProperties.h / SpatialAlgebra.h on every run (Gen/c29in_gen.v, c29si_gen.v, c29sa_gen.v);
     the other functions are the hand model C29/C29_Model.v, tied by the correspondence run of checks/C29.py. *)
 From Coq Require Import ZArith Reals List QArith.
 Require Import Num Vec c29in_gen c29si_gen c29sa_gen C29_Model C29_Proofs.
 Local Open Scope R_scope.
-
-Theorem C29_ke_invariant_under_shift m p G V S :
-  sv_dot ROps (sa_shiftVelocityBy ROps V S) (si_mul ROps (si_shift ROps (m,p,G) S) (sa_shiftVelocityBy ROps V S))
-  = sv_dot ROps V (si_mul ROps (m,p,G) V).
-Proof. exact (ke_invariant_under_shift m p G V S). Qed.
-Print Assumptions C29_ke_invariant_under_shift.
-
-Theorem C29_reexpress_is_congruence R S : rotation R ->
-  sym_to_m33 (reexpressSymMat33 ROps R S) = sym_congr ROps R S.
-Proof. exact (reexpress_is_congruence R S). Qed.
-Print Assumptions C29_reexpress_is_congruence.
-
-Theorem C29_reexpressSymMat33_preserves_charpoly R S : rotation R ->
-  sym_trace ROps (reexpressSymMat33 ROps R S) = sym_trace ROps S /\
-  sym_inv2 ROps (reexpressSymMat33 ROps R S) = sym_inv2 ROps S /\
-  sym_det ROps (reexpressSymMat33 ROps R S) = sym_det ROps S.
-Proof. exact (reexpressSymMat33_preserves_charpoly R S). Qed.
-Print Assumptions C29_reexpressSymMat33_preserves_charpoly.
 
 Theorem C29_reexpress_preserves_trace_and_charpoly I R_FB : rotation R_FB ->
   sym_trace ROps (in_reexpress ROps I R_FB) = sym_trace ROps I /\
@@ -96,4 +78,35 @@ Theorem C29_valid_implies_psd_refuted :
   exists (m:SymMat33 R) (u:Vec3 R), in_isValid ROps m = true /\ sym_quad ROps m u < 0 /\ sym_det ROps m < 0.
 Proof. exact (@valid_implies_psd_refuted). Qed.
 Print Assumptions C29_valid_implies_psd_refuted.
+
+Theorem C29_valid_implies_psd_refuted_Q :
+  in_isValid QOps ((1,2,2),(1,-1,1#2))%Q = true /\
+  (sym_quad QOps ((1,2,2),(1,-1,1#2)) (-2,1,-1) == -1)%Q /\ (sym_det QOps ((1,2,2),(1,-1,1#2)) == -5#4)%Q.
+Proof. exact (@valid_implies_psd_refuted_Q). Qed.
+Print Assumptions C29_valid_implies_psd_refuted_Q.
+
+Theorem C29_massprops_shift_agrees_with_spatial_inertia m p G S : m <> 0 ->
+  mp_calcShiftedMassProps ROps (m,p,G) S = si_shift ROps (m,p,G) S.
+Proof. exact (massprops_shift_agrees_with_spatial_inertia m p G S). Qed.
+Print Assumptions C29_massprops_shift_agrees_with_spatial_inertia.
+
+Theorem C29_spatial_inertia_transform_agrees_with_massprops m p G X : m <> 0 ->
+  mp_calcTransformedMassProps ROps (m,p,G) X = si_transform ROps (m,p,G) X.
+Proof. exact (spatial_inertia_transform_agrees_with_massprops m p G X). Qed.
+Print Assumptions C29_spatial_inertia_transform_agrees_with_massprops.
+
+Theorem C29_massless_transform_agrees_on_inertia p G X :
+  mp_calcInertia ROps (mp_calcTransformedMassProps ROps (0,p,G) X) = sym_scale ROps 0 (si_G (si_transform ROps (0,p,G) X)).
+Proof. exact (massless_transform_agrees_on_inertia p G X). Qed.
+Print Assumptions C29_massless_transform_agrees_on_inertia.
+
+Theorem C29_mp_reexpress_is_si_reexpress m p G Rm : mp_reexpress ROps (m,p,G) Rm = si_reexpress ROps (m,p,G) Rm.
+Proof. exact (mp_reexpress_is_si_reexpress m p G Rm). Qed.
+Print Assumptions C29_mp_reexpress_is_si_reexpress.
+
+Theorem C29_mp_calcShiftedInertia_is_shift m p G o :
+  mp_calcShiftedInertia ROps (m,p,G) o =
+  in_shiftFromMassCenter ROps (in_shiftToMassCenter ROps (mp_calcInertia ROps (m,p,G)) p m) (v3_sub ROps o p) m.
+Proof. exact (mp_calcShiftedInertia_is_shift m p G o). Qed.
+Print Assumptions C29_mp_calcShiftedInertia_is_shift.
 
